@@ -23,7 +23,7 @@ from core.loader import FuncInfo, Repo, ancestors, header, norm, own_nodes, pare
 from core.report import Result
 
 from .c05_detector import check_detector
-from .c05_lowering import check_are_named, check_delegation, check_filter_selection
+from .c05_lowering import check_are_named, check_delegation, check_filter_selection, check_matcher_wiring
 from .c05_matcher import check_layer_mapping_update, check_regex_resolution_per_evaluation
 from .c05_names import check_layer_lookup_names
 from .common import dotted, stmt_of, where
@@ -133,6 +133,7 @@ def run(repo: Repo) -> Result:
     res.trusted_base = ["C01 (module-rule dispatch the layer rule is lowered to)", "rules/tables.py bucket wiring", "engine inline views / guards"]
     # ---- R1
     check_delegation(repo, res)
+    check_matcher_wiring(repo, res)
     receiver = check_are_named(repo, res)
     check_filter_selection(repo, res, receiver)
     # ---- R6
